@@ -388,6 +388,17 @@ func (c *cenv) term(ex CExpr) (cval, error) {
 				return cval{"(bvnot " + v.s + ")", v.sort, v.t}, nil
 			}
 			return cval{"(- (- " + v.s + ") 1)", v.sort, v.t}, nil
+		case "*":
+			// *p for a pointer to a non-struct value: the cell it points to, in the state of the clause
+			if v.sort == "Ref" && v.t != nil {
+				if pt, ok := v.t.Underlying().(*types.Pointer); ok {
+					if _, isStruct := pt.Elem().Underlying().(*types.Struct); !isStruct {
+						l := e.cellLoc(v.s, pt.Elem())
+						return cval{e.loadIn(l, c.st), l.sort, pt.Elem()}, nil
+					}
+				}
+			}
+			return cval{}, fmt.Errorf("* on %s", v.sort)
 		}
 	case *CBinary:
 		return c.binary(x)
@@ -957,6 +968,18 @@ func (c *cenv) call(x *CCall) (cval, error) {
 		case "suffixOf":
 			return cval{fmt.Sprintf("(str.suffixof %s %s)", a[0].s, a[1].s), "Bool", nil}, nil
 		}
+	case "param":
+		// param(k): the k-th parameter of the function (0-based, receiver included), whatever it is called
+		if len(x.Args) == 1 {
+			if l, ok := x.Args[0].(*CLit); ok && l.Kind == "int" {
+				k, _ := strconv.Atoi(l.Val)
+				if k >= 0 && k < len(e.f.Params) {
+					p := e.f.Params[k]
+					return cval{e.val(p), e.sortOf(p.Type()), p.Type()}, nil
+				}
+			}
+		}
+		return cval{}, fmt.Errorf("param(k): k must be a literal index of a parameter")
 	case "fresh":
 		a, err := c.args(x, 1)
 		if err != nil {
